@@ -356,38 +356,25 @@ Definition mfields (t : mty) : list (string * mty * N) :=
 Definition mname (t : mty) : string :=
   match t with MStruct n _ => n | _ => "" end.
 
-(* parents: child struct name -> (parent struct name, field name) ; newest first;
-   a re-insert overwrites (HashMap::insert) *)
-Definition parents_t := list (string * (string * string)).
-
-Fixpoint path_up (fuel : nat) (parents : parents_t) (cur : string) : list string :=
-  match fuel with
-  | O => []
-  | S f => match alookup cur parents with
-           | Some (par, fld) => fld :: path_up f parents par
-           | None => []
-           end
-  end.
-
-(* process one queue element's fields *)
-Fixpoint objects_fields (root : string) (node : string) (fs : list (string * mty * N))
-         (queue : list mty) (parents : parents_t)
+(* StructInner::objects (mir.rs): breadth-first over nested structs; every queue entry carries
+   the path of field names leading to it, so two fields of the same struct type keep distinct
+   paths.  (The pinned upstream version keyed a parent map by struct value and lost the first
+   of two such fields; repaired by a "fix:" commit, see known_findings.json.) *)
+Fixpoint objects_fields (prefix : list string) (fs : list (string * mty * N))
+         (queue : list (mty * list string))
          (acc : list (list string * option string))
-  : list mty * parents_t * list (list string * option string) :=
+  : list (mty * list string) * list (list string * option string) :=
   match fs with
-  | [] => (queue, parents, acc)
+  | [] => (queue, acc)
   | (fname, ft, _) :: r =>
       match ft with
-      | MStruct sn _ =>
-          objects_fields root node r (queue ++ [ft]) ((sn, (node, fname)) :: parents) acc
-      | MIface i =>
-          let up := path_up (S (List.length parents)) parents node in
-          objects_fields root node r queue parents (acc ++ [(rev (fname :: up), i)])
-      | _ => objects_fields root node r queue parents acc
+      | MStruct _ _ => objects_fields prefix r (queue ++ [(ft, prefix ++ [fname])]) acc
+      | MIface i => objects_fields prefix r queue (acc ++ [(prefix ++ [fname], i)])
+      | _ => objects_fields prefix r queue acc
       end
   end.
 
-Fixpoint objects_bfs (fuel : nat) (root : string) (queue : list mty) (parents : parents_t)
+Fixpoint objects_bfs (fuel : nat) (queue : list (mty * list string))
          (acc : list (list string * option string))
   : list (list string * option string) :=
   match fuel with
@@ -395,10 +382,9 @@ Fixpoint objects_bfs (fuel : nat) (root : string) (queue : list mty) (parents : 
   | S f =>
       match queue with
       | [] => acc
-      | q :: qs =>
-          let '(queue', parents', acc') :=
-            objects_fields root (mname q) (mfields q) qs parents acc in
-          objects_bfs f root queue' parents' acc'
+      | (q, prefix) :: qs =>
+          let '(queue', acc') := objects_fields prefix (mfields q) qs acc in
+          objects_bfs f queue' acc'
       end
   end.
 
@@ -412,7 +398,7 @@ Fixpoint mty_nodes (t : mty) : nat :=
   end.
 
 Definition objects_model (t : mty) : list (list string * option string) :=
-  objects_bfs (S (mty_nodes t)) (mname t) [t] [] [].
+  objects_bfs (S (mty_nodes t)) [(t, [])] [].
 
 Definition contains_interfaces (t : mty) : bool :=
   match objects_model t with [] => false | _ => true end.
